@@ -32,11 +32,13 @@ Definition hex_pair_to_char (d1 d2 : N) : option N :=
    non-protected pair *)
 Definition escape_at (q : quoter) (val : bytes) : option (N * bytes) :=
   match val with
-  | 37 :: p1 :: p2 :: rem =>
-      match hex_pair_to_char p1 p2 with
-      | Some ch => if (ch <? 128) && bit_at q ch then None else Some (ch, rem)
-      | None => None
-      end
+  | b :: p1 :: p2 :: rem =>
+      if b =? 37 then
+        match hex_pair_to_char p1 p2 with
+        | Some ch => if (ch <? 128) && bit_at q ch then None else Some (ch, rem)
+        | None => None
+        end
+      else None
   | _ => None
   end.
 
